@@ -223,7 +223,11 @@ Section Handlers.
         + rewrite mk_bss_id. reflexivity.
       - rewrite mk_bss_id. reflexivity. }
     rewrite sec_step_other by lia. rewrite ssid_step_other, hid_step_other by lia.
-    rewrite chan_step_other by lia. rewrite mk_bss_id. reflexivity.
+    rewrite chan_step_other by lia. rewrite mk_bss_id.
+    destruct (e_num e =? c_TAG_ELEMENT_EXTENSION); [|reflexivity].
+    change sizeof_libwifi_tag_extension_header with 1.
+    destruct (1 <=? e_len e) eqn:L1; [|reflexivity].
+    rewrite rd_body0 by (try exact G; lia). reflexivity.
   Qed.
 
   Lemma bss_elems_exact : forall els b, Forall (genuine tags) els ->
